@@ -109,11 +109,11 @@ def expected(b):
         outer_def = _own_def_signature(b.target)
         return finish(alts, why.replace('incompatible in some order', 'incompatible in some  order'), pcs,
                       lambda e: signatures.forwards(outer_def, e), ' (through the wrapping decorator)')
-    if route in ('self_method', 'self_attr', 'classmethod_cls'):
+    if route in ('self_method', 'self_attr', 'classmethod_cls', 'self_shadow_nested'):
         fsig = signatures.signature(b.target.__func__)
         alts, why, pcs = _function_expectation(b, fsig)
         return finish(alts, why, pcs, lambda e: signatures.mask(e, 1), ', bound')
-    if route == 'param':
+    if route in ('param', 'param_shadow_lambda'):
         fsig = signatures.signature(b.target.func)
         alts, why, pcs = _function_expectation(b, fsig)
         n = len(b.target.args)
